@@ -51,6 +51,17 @@ m(["C17", "C16"], "get-terms-ignores-bound-tail", "src/s_linked_list.rs",
   "                                if let SLinkedList{term, next,\n                                    count: _, tail_var: _} = list {\n                                    head = term;\n                                    slist = next;\n                                }",
   "                                let _ = list;", "R1/follows-tail")
 
+# ---------------- classification of a term's text (C20) ----------------
+m(["C20"], "term-sign-is-non-digit-again", "src/parse_terms.rs",
+  "        } else if i == 0 && (*ch == '+' || *ch == '-') {\n            // Plus or minus in front of a number is part of the number: +7, -3.8\n            let mut next_ch = 'x';\n            if chrs.len() > 1 { next_ch = chrs[1]; }\n            if next_ch < '0' || next_ch > '9' { has_non_digit = true; }\n        } else if *ch > ' ' {",
+  "        } else if *ch > ' ' {", "R2/agree")
+m(["C20"], "term-blank-is-non-digit-again", "src/parse_terms.rs", "        } else if *ch > ' ' {\n            has_non_digit = true;\n        }\n    }\n\n    // Check for escaped characters",
+  "        } else {\n            has_non_digit = true;\n        }\n    }\n\n    // Check for escaped characters", "R2/agree")
+m(["C20"], "argument-period-is-non-digit", "src/parse_terms.rs", "                else if ch == '.' {\n                    argument.push(ch);\n                    has_period = true\n                }",
+  "                else if ch == '.' {\n                    argument.push(ch);\n                    has_period = true;\n                    has_non_digit = true\n                }", "R2/agree")
+m(["C20"], "term-digits-converted-early", "src/parse_terms.rs", "    // Check for escaped characters, eg: \\,\n    if chrs.len() == 2 && chrs[0] == '\\\\' { s = &s[1..]; }",
+  "    if let Ok(n) = s.parse::<i64>() { return Ok(SInteger(n)); }\n\n    // Check for escaped characters, eg: \\,\n    if chrs.len() == 2 && chrs[0] == '\\\\' { s = &s[1..]; }", "R3")
+
 # ---------------- solver (C01-C05) ----------------
 m(["C01"], "or-tail-from-head-set", "src/solution_node_and_or.rs",
   "            let ss = Rc::clone(&sn_ref.ss);\n            let tail_sn = make_solution_node(Rc::new(tail_goal),\n                                             sn_ref.kb, ss,",
